@@ -444,6 +444,9 @@ src_stm
         {
             cmd := strings.TrimSpace($<intern>3.unquote($3))
             stagecodeParts := strings.Fields(cmd)
+            if len(stagecodeParts) == 0 {
+                return mmlex.(*mmLexInfo).fail("stage src must not be empty")
+            }
             $$ = &SrcParam{
                 Node: NewAstNode($<loc>1),
                 Lang: StageLanguage($<intern>2.Get($2)),
